@@ -33,6 +33,10 @@ checks = {
    "Every scalar key (numeric, text, on/off, enum) in random subsets of file and line, unknown keys, missing file, two argument orders per case: effective value = line, else file, else default; full runs confirm the line value in run state and result files."),
  "C04": ("simmon", "exploration", "3 C04", "runtime monitoring: on every simulated day the weather arrays the model uses are compared at the probe with the generator's truth table for that calendar date; fault cases (incomplete weather) must end with an error",
    "Three layouts, leap years, year changes, series starting early, sentinels incl. year boundaries, wind floor as consumed by Penman-Monteith, monthly precipitation correction; incomplete inputs (ends early, gap, missing year, starts late): ten open findings where the readers' errors are dropped, one open finding for a sentinel at the edge of the loaded year range."),
+ "C10": ("simmon", "exploration", "3 C10", "runtime monitoring: exactly-once / ordering checker over the management event log of real runs against a reference reader of the generated schedule, plus state-jump assertions with amounts from the fertiliser table",
+   "Fertilisation, tillage, irrigation, sowing, harvest: each scheduled action inside the period appears exactly once, in order, on its due day; pre-start actions ignored; irrigation water and N enter that day's infiltration / top layer; fertiliser pools change by the table amounts; 20% of cases with automatic management switches."),
+ "C16": ("simmon", "exploration", "3 C16", "runtime monitoring: sowing / harvest days from the management event log and every automatic irrigation / N application observed at the probes are checked against the generated rotation and automatic-management table",
+   "Rotation order, crop code and harvest year of every crop record; fixed dates hit exactly; automatic sowing inside its window and after the previous harvest, harvest not after the latest date, irrigation only in the stage window and not above the daily maximum, automatic N >= 0; all 16 switch combinations."),
 }
 
 not_applicable = {
@@ -40,10 +44,8 @@ not_applicable = {
 
 pending = {  # not yet built: listed as not claimed until their check exists
  "C03": "check under construction (batch/race engine)",
- "C10": "check under construction",
  "C11": "check under construction",
  "C13": "check under construction",
- "C16": "check under construction",
  "C18": "check under construction",
 }
 
